@@ -608,8 +608,10 @@ Definition tau_labels (s : st) : list lab :=
 (* The matcher's search is guided by the recorded ticks: a timer is fired only at the clock value
    carried by the next tick still to be received (a callback that sends nothing - stale generation, or
    buffer full - has no visible effect, and firing a timer later than its deadline is always allowed,
-   so no producible history is lost).  [mstep] is [step] restricted in this way; every run of [mstep]
-   is a run of [step] (XTimeProofs.mstep_sound). *)
+   so no producible history is lost), and the clock is advanced only while t.m is not held (a critical
+   section contains no blocking operation; executing all of it at the clock value at which the lock was
+   taken only makes timer deadlines earlier).  [mstep] is [step] restricted in this way; every run of
+   [mstep] is a run of [step] (XTimeProofs.mstep_sound). *)
 Definition mst : Type := st * list Z.
 
 Definition mstep (ms : mst) (l : lab) : option mst :=
@@ -625,6 +627,11 @@ Definition mstep (ms : mst) (l : lab) : option mst :=
       | v' :: pend' => if v =? v' then option_map (fun s' => (s', pend')) (step s l) else None
       | [] => None
       end
+  | LTick _ =>
+      match mu s with
+      | MTh _ | MCb _ => None
+      | _ => option_map (fun s' => (s', pend)) (step s l)
+      end
   | _ => option_map (fun s' => (s', pend)) (step s l)
   end.
 
@@ -637,9 +644,11 @@ Fixpoint recv_values (evs : list lab) : list Z :=
   | _ :: t => recv_values t
   end.
 
-(* A recorded JitterTicker scenario: n goroutines and the events, every recorded event preceded by an
-   [LTick t] with its timestamp; a tick value v received from C appears as [LTick v; LRecv v] at the
-   position of v among the timestamps (v is the clock value read inside the callback). *)
+(* A recorded JitterTicker scenario: n goroutines and the events in log order, every call preceded by an
+   [LTick t] with its timestamp (the invocation is logged before the call: t is a lower bound of the time
+   of everything the call does); a tick value v received from C appears as [LTick v; LRecv v] at the
+   position of v among the timestamps (v is the clock value read inside the callback).  Returns carry no
+   [LTick]: their time is not a lower bound of anything that is not logged later. *)
 Definition accepts_history (n : nat) (evs : list lab) : bool :=
   accepts mstep vis lab_eqb mst_eqb (fun ms => tau_labels (fst ms)) (fun _ e => [e]) 64
           (tinit n, recv_values evs) evs.
@@ -663,6 +672,11 @@ Definition mstep_old (ms : mst) (l : lab) : option mst :=
       match pend with
       | v' :: pend' => if v =? v' then option_map (fun s' => (s', pend')) (step_old s l) else None
       | [] => None
+      end
+  | LTick _ =>
+      match mu s with
+      | MTh _ | MCb _ => None
+      | _ => option_map (fun s' => (s', pend)) (step_old s l)
       end
   | _ => option_map (fun s' => (s', pend)) (step_old s l)
   end.
